@@ -111,3 +111,12 @@ Theorem c02_write_roots_order_is_source :
   before "s.file.WriteAt" "atomic.StoreInt64" (call_list "Store.writeRoots") = true.
 Proof. exact DecFlush.write_roots_order. Qed.
 Print Assumptions c02_write_roots_order_is_source.
+
+From GK Require Import DecSites.
+
+Theorem c02_size_update_sites_are_source :
+  sites "atomic.StoreInt64" = ["Store.readRoots"; "Store.scanBackwardsForMagicEnd"; "Store.setSize"; "Store.writeRoots"; "itemLoc.write"] /\
+  sites "atomic.AddInt64" = ["Store.FlushRevert"; "Store.readRootsScan"; "Store.scanBackwardsForMagicEnd"] /\
+  sites "setSize" = ["nodeLoc.write"].
+Proof. exact DecSites.size_update_sites. Qed.
+Print Assumptions c02_size_update_sites_are_source.
